@@ -21,7 +21,7 @@ class GenError(Exception):
     """extraction/splice problem -> exit 2 (never an alarm)"""
 
 
-DROP_ATTRS = ('derive', 'serde', 'allow', 'inline', 'repr', 'unsafe(no_mangle)', 'no_mangle', 'must_use',
+DROP_ATTRS = ('non_exhaustive', 'derive', 'serde', 'allow', 'inline', 'repr', 'unsafe(no_mangle)', 'no_mangle', 'must_use',
               'cfg_attr', 'doc', 'wasm_bindgen', 'deprecated', 'default')
 HEADER_KW = ('requires', 'ensures', 'decreases', 'returns', 'no_unwind', 'opens_invariants', 'recommends')
 CLAUSE_KW = HEADER_KW + ('attr', 'loop', 'forlabel', 'after', 'before', 'opt', 'replace', 'outline', 'note', 'entry', 'loopbefore', 'loophead', 'looptail', 'loopend')
